@@ -146,7 +146,8 @@ pub fn run_case<F: Flavour>(prop: &str, c: &SCase, st: &mut Stats, counting: boo
 
 pub fn run_case_on<F: Flavour>(prop: &str, nodes: &[F::Node], c: &SCase, st: &mut Stats, counting: bool) -> bool {
     let out = exec::<F>(nodes, c.root, &c.cell, &c.meth, budget_for(&c.g));
-    let fails = judge(F::DIRECTED, &c.g, c.root, &c.cell, &c.meth, &out);
+    // (C08 on very large graphs: orderings are compared with the same ordering on the reversed graph only)
+    let fails = if c.g.n > 30_000 && matches!(&c.cell, Cell::Order(_)) { vec![] } else { judge(F::DIRECTED, &c.g, c.root, &c.cell, &c.meth, &out) };
     if counting {
         st.eval();
         st.class(&format!("cell.{}", c.cell.label(&c.meth)));
@@ -261,27 +262,37 @@ pub fn run_reuse<F: Flavour>(prop: &str, g: &GCase, root: Key, cell: &Cell, st: 
             return ok;
         }
     }
-    let Some((g0, a, b)) = exec_reuse::<F>(g, root, cell) else { return true };
+    let Some((g0, outs)) = exec_reuse::<F>(g, root, cell) else { return true };
     if counting {
         st.eval();
-        st.class("reuse.same-object-asked-twice-with-an-edge-added-in-between");
+        st.class(if outs.len() > 2 { "reuse.same-object-asked-four-times-with-an-edge-added-removed-added" } else { "reuse.same-object-asked-twice-with-an-edge-added-in-between" });
     }
     let mut ok = true;
-    for (which, gg, out) in [("first", &g0, &a), ("second", g, &b)] {
+    let names = ["first", "second", "third", "fourth"];
+    for (i, out) in outs.iter().enumerate() {
+        let (which, gg) = (names[i.min(3)], if i % 2 == 0 { &g0 } else { g });
         for t in judge(F::DIRECTED, gg, root, cell, &MethSpec::None, out) {
             if t.fail.clause == "UNDECIDED" || !t.props.contains(&prop) {
                 continue;
             }
             ok = false;
-            let clause: &'static str = if which == "second" { "reuse.second-answer-of-the-same-object-wrong" } else { t.fail.clause };
+            let clause: &'static str = match i {
+                0 => t.fail.clause,
+                1 => "reuse.second-answer-of-the-same-object-wrong",
+                _ => "reuse.later-answer-of-the-same-object-wrong",
+            };
             st.report(Finding {
                 property: prop.into(),
                 flavour: F::NAME.into(),
                 clause: clause.into(),
                 signature: signature(F::NAME, cell, &MethSpec::None, clause),
-                case: json!({"kind": "search-reuse", "flavour": F::NAME, "g": g, "root": root, "cell": cell, "note": "search object created on g without its last edge, asked, last edge connected, asked again", "observed_first": {"path": a.path, "nodes": a.nodes, "edges": a.edges}, "observed_second": {"path": b.path, "nodes": b.nodes, "edges": b.edges}}),
+                case: json!({"kind": "search-reuse", "flavour": F::NAME, "g": g, "root": root, "cell": cell, "note": "search object created on g without its last edge and asked; then the last edge is connected / disconnected / connected with the same object asked after each change", "observed": outs.iter().map(|o| json!({"path": o.path, "nodes": o.nodes, "edges": o.edges})).collect::<Vec<_>>()}),
                 detail: format!("{} call: {}: {}", which, t.fail.clause, t.fail.detail),
             });
+            break;
+        }
+        if !ok {
+            break;
         }
     }
     ok
@@ -916,12 +927,14 @@ pub fn run(prop: &'static str, ctx: &mut Ctx) {
         let mut e: Vec<Tri> = (0..n - 1).map(|i| (i as Key, (i + 1) as Key, 7 + (i % 3) as EV)).collect();
         e.push((0, 2, 1));
         e.push(((n - 1) as Key, (n - 5) as Key, 2));
+        // closed into a ring: the cycle through any node is n edges long
+        e.push(((n - 1) as Key, 0, 4));
         bigs.push((GCase { n, prio: (0..n).map(|i| ((i * 7) % 5) as i32).collect(), edges: e }, 0, (n - 1) as Key));
     }
     ctx.stats.extra.insert("deep_chain_sizes".into(), json!(deep_sizes));
     // one wide hub (in- and out-degree above 4096): 0 -> i and i -> 0 for every i, plus a chain among the first spokes
     if prop != "C06" {
-        for &n in &tier.pick(vec![8400usize], vec![4200, 8400, 17_000, 70_000]) {
+        for &n in &tier.pick(if prop == "C08" { vec![8400usize, 70_000] } else { vec![8400usize] }, vec![4200, 8400, 17_000, 70_000, 140_000]) {
             let mut e: Vec<Tri> = (1..n).map(|i| (0 as Key, i as Key, 3 + (i % 4) as EV)).collect();
             e.extend((1..n).map(|i| (i as Key, 0 as Key, 1 + (i % 2) as EV)));
             e.extend((1..40).map(|i| (i as Key, (i + 1) as Key, 9)));
@@ -953,7 +966,7 @@ pub fn run(prop: &'static str, ctx: &mut Ctx) {
                             continue;
                         }
                         // the exact ordering deciders are quadratic: beyond 30 000 nodes the orderings are exercised through scc() (C11)
-                        if g.n > 30_000 && matches!(&cell, Cell::Order(_)) {
+                        if g.n > 30_000 && matches!(&cell, Cell::Order(_)) && prop != "C08" {
                             continue;
                         }
                         let (root, target) = if cell.transposed() { (*t, *r) } else { (*r, *t) };
@@ -980,7 +993,7 @@ pub fn run(prop: &'static str, ctx: &mut Ctx) {
                         }
                         if g.n > 4000 {
                             // very deep chains and the wide hub: one closure kind per cell, alternating
-                            ms = vec![if cell.transposed() { MethSpec::ForEach } else { MethSpec::None }];
+                            ms = vec![if cell.transposed() || matches!(&cell, Cell::Search(c) if c.term == Term::Search) { MethSpec::ForEach } else { MethSpec::None }];
                         }
                         for m in ms {
                             let c = SCase { g: g.clone(), root, cell: cell.clone(), meth: m };
